@@ -11,6 +11,10 @@ mod events;
 mod tests;
 
 pub use api::{Gossip, GossipError, GossipHandle, GossipPublishError, GossipSubscription};
+#[cfg(p2panda_p2panda_verif)]
+pub use api::verif_c29;
+#[cfg(p2panda_p2panda_verif)]
+pub use actors::ToGossipManager as VerifToGossipManager;
 pub use builder::Builder;
 pub use config::{DEFAULT_MAX_MESSAGE_SIZE, GossipConfig, HyParViewConfig, PlumTreeConfig};
 pub use events::GossipEvent;
